@@ -115,3 +115,92 @@ harness!(se_h_c08_enc, c08_enc, {
     if run.calls > nch + 3 { reach(36); }
     reach(END);
 });
+
+// Long ASCII runs through the streaming API (the 16-unit acceleration strides of the ASCII fast paths) against output limits.
+// decoder side: stream = k ASCII bytes + n symbolic bytes + s ASCII bytes, one buffer, last = true; the capacity is a symbolic value in cmin..=cmax
+// (param 11 = number of calls with an own value, default one value for all calls), so that the end of the destination falls at every offset of a stride.
+// The complete output is compared with the reference decoder of the Standard (as C01), on top of the driver's per-call contract.
+// params: 0 encoding, 1 k, 2 max n, 3 sink, 4 replacement, 5/6 range of the first symbolic byte, 7 s, 9/10 capacity range,
+//         13 flags (as se_h_c08_dec), 14 != 0: destination pre-filled with fresh symbolic units (tag)
+harness!(se_h_c08_long, c08_long, {
+    let e = param(0);
+    let sink = param(3);
+    let repl = param(4) != 0;
+    let k = param(1);
+    let mut src = [0u8; 48];
+    let mut i = 0;
+    while i < k { src[i] = 0x61 + (i % 20) as u8; i += 1; }
+    let n = sym_range(100, 0, param(2));
+    i = 0;
+    while i < n { src[k + i] = sym_u8(i as u32); i += 1; }
+    if n > 0 { assume(src[k] >= param(5) as u8 && src[k] <= param(6) as u8); }
+    let s = param(7);
+    i = 0;
+    while i < s { src[k + n + i] = 0x41 + (i % 20) as u8; i += 1; }
+    let len = k + n + s;
+    let mut d = new_decoder(e, BOM_OFF);
+    let mut run = Run::new(param(9));
+    run.sym_caps(param(9), param(10), if param(11) == 0 { 1 } else { param(11) });
+    run.max_calls = 4 * len + 16;
+    run.wf_check = param(13) & 1 != 0;
+    run.keep_prefix = param(13) & 2 != 0;
+    run.sym_fill = param(14) as u32;
+    push(&mut d, sink, repl, &src[..len], true, &mut run);
+    check(run.finished, 1);
+    check(run.total_read == len, 3);
+    let mut exp = Log::new();
+    let had = ref_log(e, &src[..len], sink, repl, &mut exp);
+    same_log(&run.log, &exp, 10);
+    if repl { check(run.had_errors == had, 2); }
+    if run.output_full_seen { reach(30); }
+    if run.calls > 2 { reach(36); }
+    reach(END);
+});
+
+// encoder side: text = k ASCII + one symbolic character (plane base + window) + s ASCII, from UTF-8 or UTF-16, same capacity regime;
+// output compared with the reference encoder (as C03).
+// params: 0 encoding, 1 source form, 2 replacement, 3 plane base, 4/5 window, 6 k, 7 s, 8 sink kind, 9/10 capacity range, 13 flags
+harness!(se_h_c08_long_enc, c08_long_enc, {
+    let e = param(0);
+    let form = param(1);
+    let repl = param(2) != 0;
+    let u = sym_u16(0);
+    assume(u as usize >= param(4) && u as usize <= param(5));
+    let c = param(3) as u32 + u as u32;
+    assume(!(c >= 0xD800 && c <= 0xDFFF));
+    assume(c <= 0x10FFFF);
+    let k = param(6);
+    let s = param(7);
+    let mut b8 = [0u8; 48]; let mut b16 = [0u16; 48];
+    let mut cps = [0u32; 44]; let mut end8 = [0usize; 45]; let mut end16 = [0usize; 45];
+    let mut n8 = 0usize; let mut n16 = 0usize; let mut nc = 0usize;
+    let mut i = 0;
+    while i < k + 1 + s {
+        let ch = if i < k { 0x61 + (i % 20) as u32 } else if i == k { c } else { 0x41 + ((i - k) % 20) as u32 };
+        n8 += super::refs::put_utf8(ch, &mut b8[n8..]);
+        n16 += super::refs::put_utf16(ch, &mut b16[n16..]);
+        cps[nc] = ch; nc += 1; end8[nc] = n8; end16[nc] = n16;
+        i += 1;
+    }
+    let units = if form == SRC_UTF8 { n8 } else { n16 };
+    let mut en = enc(e).new_encoder();
+    let mut run = Run::new(param(9));
+    run.sym_caps(param(9), param(10), if param(11) == 0 { 1 } else { param(11) });
+    run.max_calls = 4 * units + 16;
+    run.keep_prefix = param(13) & 2 != 0;
+    let kind = param(8);
+    if form == SRC_UTF8 {
+        let sl = unsafe { core::str::from_utf8_unchecked(&b8[..n8]) };
+        if repl { epush8_replace(&mut en, kind, sl, true, &mut run); } else { epush8_noreplace(&mut en, kind, sl, true, &mut run); }
+    } else if repl { epush16_replace(&mut en, kind, &b16[..n16], true, &mut run); } else { epush16_noreplace(&mut en, kind, &b16[..n16], true, &mut run); }
+    check(run.finished, 1);
+    check(run.total_read == units, 3);
+    let mut exp = Log::new();
+    let ends = if form == SRC_UTF8 { &end8 } else { &end16 };
+    let had = ref_elog(e, &cps[..nc], &ends[..nc + 1], repl, &mut exp);
+    same_log(&run.log, &exp, 10);
+    if repl { check(run.had_errors == had, 2); }
+    if run.output_full_seen { reach(30); }
+    if run.calls > 2 { reach(36); }
+    reach(END);
+});
